@@ -89,7 +89,7 @@ def rule_permutation(ctx):
                 if idxcall[0] == "call" and idxcall[1].endswith("::index") and self_field(mir.strip_refs(idxcall[2][0]), "scored_moves"):
                     I = idxcall[2][1]
                     # form (b): (self.index read after the increment) - 1
-                    sub = I[0] == "field" and I[-1] == "0" and I[1][0] == "bin" and I[1][1].startswith("Sub") and self_field(I[1][2], "index") and I[1][3] == ("const", 1, "usize")
+                    sub = I[0] == "bin" and I[1].startswith("Sub") and self_field(I[2], "index") and I[3] == ("const", 1, "usize")
                     if sub:
                         # the read of self.index feeding the subtraction must come after the increment
                         okr = read_after(b, somes[0], ib)
@@ -139,7 +139,7 @@ def range_from_index(sym, e):
     for x in walk(it):
         if isinstance(x, tuple) and x[0] == "agg" and isinstance(x[1], str) and x[1].endswith("ops::Range") and len(x[3]) == 2:
             st, en = x[3]
-            start_ok = self_field(st, "index") or (st[0] == "field" and st[-1] == "0" and st[1][0] == "bin" and st[1][1].startswith("Add") and self_field(st[1][2], "index") and st[1][3][0] == "const" and st[1][3][1] >= 0)
+            start_ok = self_field(st, "index") or (st[0] == "bin" and st[1].startswith("Add") and self_field(st[2], "index") and st[3][0] == "const" and st[3][1] >= 0)
             end_ok = en[0] == "call" and en[1].endswith("Vec::len") and self_field(mir.strip_refs(en[2][0]), "scored_moves")
             return start_ok and end_ok
     return False
@@ -215,8 +215,6 @@ def window_kind(a, bb):
     if na is not None and is_beta(na):
         return "full"
     # null window: neg(alpha) - 1
-    if a[0] == "field" and a[-1] == "0" and a[1][0] == "bin" and a[1][1].startswith("Sub") and neg(a[1][2]) == ("var", "alpha") and a[1][3] == ("const", 1, "i16"):
-        return "null"
     if a[0] == "bin" and a[1].startswith("Sub") and neg(a[2]) == ("var", "alpha") and a[3] == ("const", 1, "i16"):
         return "null"
     return "other"
@@ -235,7 +233,7 @@ def rule_windows(ctx):
             a, bb, d = sym.operand(t["args"][2]), sym.operand(t["args"][3]), sym.operand(t["args"][4])
             k = window_kind(a, bb)
             kinds.append((bi, k))
-            dep_ok = d[0] == "field" and d[-1] == "0" and d[1][0] == "bin" and d[1][1].startswith("Sub") and d[1][2] == ("arg", "depth") and d[1][3] == ("const", 1, "u8")
+            dep_ok = d[0] == "bin" and d[1].startswith("Sub") and d[2] == ("arg", "depth") and d[3] == ("const", 1, "u8")
             ctx.check(k in ("full", "null") and dep_ok, c_dedup(ctx, "%s:call:%s" % (key, k)), "child searched with the %s window (%s, %s) at depth - 1" % (k, expr_str(a), expr_str(bb)), b.where(bi),
                       bad_what="a child is searched with window (%s, %s) at depth `%s`: not (-beta, -alpha) / (-alpha-1, -alpha) at depth-1" % (expr_str(a), expr_str(bb), expr_str(d)))
             # result negated: the destination flows into saturating_neg before reaching `score`
